@@ -356,6 +356,7 @@ type batch struct {
 	sites                      int
 	wall                       float64
 	chunks                     int
+	longLived                  int
 }
 
 func newBatch() *batch {
@@ -396,6 +397,8 @@ func (b *batch) add(s *summary) {
 	}
 }
 
+const longSpan = 24
+
 // runBatch executes runs [0,total) of a property in chunks over `par` parallel workers, until
 // done, a violation is found, or the deadline passes.  The violation with the smallest run
 // index among the chunks that ran is reported.
@@ -425,7 +428,15 @@ func runBatch(bin, prop string, seed uint64, total, chunk, par int, deadline tim
 		if next >= total || time.Now().After(deadline) {
 			return span{}, false
 		}
-		s := span{next, next + chunk}
+		// one worker process in sixteen lives 24 times as long: state that a process accumulates
+		// (tables that fill up after so many distinct paths, patterns or documents) is reached
+		// there, and the window replay re-executes that process up to the failing run
+		n := chunk
+		if chunk > 0 && (next/chunk)%16 == 9 {
+			n = chunk * longSpan
+			b.longLived++
+		}
+		s := span{next, next + n}
 		if s.to > total {
 			s.to = total
 		}
